@@ -2101,3 +2101,116 @@ R("opinion-err-bounds-compare", ["C18"],
 		return errors.New("vote opinion must be one of [UNKNOWN, POSITIVE, NEGATIVE, GIVEUP]")
 	}
 	return nil"""))
+M("log-and-return-false-wraps-before-nil-test", "C18", "C18.nilerr",
+  ("action/helpers/helpers.go", """	if err == nil {
+		err = errors.New("No Err String")
+	}
+	logger.Error(sterr)
+	result := action.Response{
+		Events: action.GetEvent(tags, sterr.Msg),
+		Log:    sterr.Wrap(err).Marshal(),
+	}""", """	detail := sterr.Wrap(err)
+	if err == nil {
+		detail = sterr.Wrap(errors.New("No Err String"))
+	}
+	logger.Error(sterr)
+	result := action.Response{
+		Events: action.GetEvent(tags, sterr.Msg),
+		Log:    detail.Marshal(),
+	}"""))
+M("olvm-response-failed-without-error", "C18", "C18.nilerr",
+  ("action/olvm/handler.go", """		tags = responseLogs(tags, ethtypes.ReceiptStatusFailed, execResult.Err)
+		return ResponseSuccess(action.GetEvent(tags, HandlerName), int64(execResult.UsedGas))""", """		tags = responseLogs(tags, ethtypes.ReceiptStatusFailed, execResult.Err)
+		if execResult.UsedGas == 0 {
+			return ResponseFailed(tags, nil, action.WrongFee)
+		}
+		return ResponseSuccess(action.GetEvent(tags, HandlerName), int64(execResult.UsedGas))"""))
+R("log-and-return-false-switch", ["C18"],
+  ("action/helpers/helpers.go", """	if err == nil {
+		err = errors.New("No Err String")
+	}
+	logger.Error(sterr)""", """	switch {
+	case err == nil:
+		err = errors.New("No Err String")
+	}
+	logger.Error(sterr)"""))
+M("revert-fix-tocoinwithbase-truncates", "C02", "C02.narrow",
+  ("action/types.go", """	scaled := new(big.Int).Mul(a.Value.BigInt(), currency.Base())
+	return currency.NewCoinFromAmount(*balance.NewAmountFromBigInt(scaled))""", """	_ = big.NewInt
+	return currency.NewCoinFromInt(a.Value.BigInt().Int64())"""))
+M("send-amount-via-int64", "C02", "C02.narrow",
+  (SEND, """	coin := send.Amount.ToCoin(ctx.Currencies)
+""", """	coin := send.Amount.ToCoin(ctx.Currencies)
+	coin = coin.Currency.NewCoinFromUnit(coin.Amount.BigInt().Int64())
+"""))
+R("iszeroamount-sign", ["C16"],
+  (SOBJ, """	if amount.Cmp(big.NewInt(0)) == 0 {
+		return true
+	}
+	return false""", """	return amount.Sign() == 0"""))
+M("iszeroamount-low-bits", "C16", "C16.empty",
+  (SOBJ, """	if amount.Cmp(big.NewInt(0)) == 0 {
+		return true
+	}
+	return false""", """	return amount.Int64() == 0"""))
+M("addlog-revert-forgets-counter", "C16", "C16.revert-complete",
+  (JRN, """	if len(logs) == 1 {
+		delete(s.logs, ch.txhash)
+	} else {
+		s.logs[ch.txhash] = logs[:len(logs)-1]
+	}
+	s.logSize--""", """	if len(logs) == 1 {
+		delete(s.logs, ch.txhash)
+		return
+	}
+	s.logs[ch.txhash] = logs[:len(logs)-1]
+	s.logSize--"""))
+M("malicious-map-reset-after-early-returns", "C08", "C08.rebuild",
+  ("identity/validator_set_allegation.go", """	vs.maliciousValidators = make(map[string]*evidence.LastValidatorHistory)
+	evidenceOptions, err := govern.GetEvidenceOptions()""", """	evidenceOptions, err := govern.GetEvidenceOptions()"""),
+  ("identity/validator_set_allegation.go", """	// fetch previous suspicious validators
+""", """	// fetch previous suspicious validators
+	vs.maliciousValidators = make(map[string]*evidence.LastValidatorHistory)
+"""))
+M("proposal-exists-skips-failed-store", "C14", "C14.allstores",
+  ("data/governance/proposal_store.go", """	return ps.state.Exists(active) || ps.state.Exists(passed) || ps.state.Exists(failed) || ps.state.Exists(finalized) || ps.state.Exists(finalizeFailed)""",
+   """	_ = failed
+	return ps.state.Exists(active) || ps.state.Exists(passed) || ps.state.Exists(finalized) || ps.state.Exists(finalizeFailed)"""),
+  ("data/governance/proposal_store.go", """	failed := append(ps.prefixFailed, key...)""", """	failed := append(ps.prefixFinalized, key...)"""))
+M("tracker-queryall-skips-failed", "C15", "C15.allstores",
+  ("data/ethereum/store.go", """	tracker, err = ts.WithPrefixType(PrefixFailed).Get(key)
+	if err == nil {
+		return tracker, nil
+	}
+	return nil, err""", """	return nil, err"""))
+M("txhash-of-trimmed-bytes", "C05", "C05.hashfn",
+  ("utils/generic_hash.go", """func GetTransactionHash(tx []byte) []byte {
+	return SHA2(tx)""", """func GetTransactionHash(tx []byte) []byte {
+	return SHA2(bytes.TrimSpace(tx))"""),
+  ("utils/generic_hash.go", """import (""", """import (
+	"bytes"
+"""))
+M("calculator-window-at-current-height", "C13", "C13.schedule",
+  (CALC, """		cycleEndHeight := (calc.height-1)/cycle*cycle + 1""", """		cycleEndHeight := calc.height"""))
+M("reward-dump-index-ceil", "C13", "C13.dump",
+  ("data/rewards/store.go", """	lastIndex := lastInterval.LastIndex + (rs.State.Version()-lastInterval.LastHeight)/rs.rewardOptions.RewardInterval + 1""",
+   """	lastIndex := lastInterval.LastIndex + (rs.State.Version()-lastInterval.LastHeight+rs.rewardOptions.RewardInterval-1)/rs.rewardOptions.RewardInterval"""))
+M("proposal-share-divided-by-other-list", "C02", "C02.floor",
+  ("action/governance/finalizeProposal.go", """	validatorEarningOLT := getPercentageCoin(&totalFundsCoin, &fundTracker, proposalDistribution.Validators).Divide(len(validatorList))""",
+   """	activeList, _ := ctx.Validators.GetActiveValidatorList(ctx.EvidenceStore)
+	if len(activeList) == 0 {
+		return action.ErrGettingValidatorList
+	}
+	validatorEarningOLT := getPercentageCoin(&totalFundsCoin, &fundTracker, proposalDistribution.Validators).Divide(len(activeList))"""))
+R("reward-dump-index-locals", ["C13"],
+  ("data/rewards/store.go", """	lastIndex := lastInterval.LastIndex + (rs.State.Version()-lastInterval.LastHeight)/rs.rewardOptions.RewardInterval + 1""",
+   """	version, interval := rs.State.Version(), rs.rewardOptions.RewardInterval
+	passed := (version - lastInterval.LastHeight) / interval
+	lastIndex := 1 + lastInterval.LastIndex + passed"""))
+R("remove-account-zero-coin-local", ["C17"],
+  (KEEP, """	if account.Coins.Amount != nil {
+		_ = nak.balances.SetBalance(account.Address, account.Coins.Currency.NewCoinFromInt(0))
+	}""", """	if own := account.Coins; own.Amount != nil {
+		zero := own.Currency.NewCoinFromInt(0)
+		_ = nak.balances.SetBalance(account.Address, zero)
+	}"""))
